@@ -102,6 +102,15 @@ pub fn state_within_envelope(s: &PushState) -> bool {
 fn within_envelope(s: &PushState) -> bool {
     // C01 is stated inside a resource envelope: operand-controlled sizes and total code size bounded
     if let Some(Item::InstructionMeta { name }) = s.exec_stack.get(0) {
+        if name.starts_with("FLOATVECTOR.SORT") {
+            // a NaN with the sign bit set (x86's default NaN) is ordered first by total_cmp; its sign is not
+            // observable through the protocol, so such a step is outside what can be compared
+            if let Some(v) = s.float_vector_stack.get(0) {
+                if v.values.iter().any(|x| x.is_nan() && x.is_sign_negative()) {
+                    return false;
+                }
+            }
+        }
         if is_size_operand(name) {
             for i in 0..4 {
                 if let Some(v) = s.int_stack.get(i) {
